@@ -1,6 +1,314 @@
-//! driver stub (filled in by its check)
-use serde_json::{json, Value};
+//! C19: address dissection of Ethernet frames and IP packets.
+//! `dissect <nrand> <et20_stride> <et15_stride> <extra 0|1> <chunk> <outdir>` runs the real `Frame::parse` / `Packet::parse` on the
+//! input families of the property's quantifier and records one event per call:
+//! `{"op":"frame"|"packet","data":[bytes],"res":"ok"|"reject"|"panic","src":[bytes],"dst":[bytes]}`.
+//! `dissect replay <in.ndjson> <outdir>` re-executes recorded inputs.
+//! The first trace file holds the small structured families (position-tagged contents, version nibbles, nested and
+//! truncated tags); the sweeps (all ethertypes, all tag-control values) and the random contents follow in files of at
+//! most `chunk` events.  Judging the results is TLC's job (spec/Trace_Dissect.tla), not this driver's.
+use super::util::*;
+use crate::payload::{Frame, Packet, Protocol};
+use crate::types::Address;
+use rand::Rng;
+use serde_json::{json, Map, Value};
+use std::collections::HashSet;
 
-pub fn run(_args: &[String]) -> Value {
-    json!({"error": "not implemented"})
+struct Out {
+    dir: String,
+    chunk: usize,
+    cur: Option<Trace>,
+    files: Vec<Value>,
+    cur_path: String,
+    total: usize,
+    calls: u64,
+    ok: u64,
+    reject: u64,
+    panics: u64,
+    distinct: HashSet<(u8, Vec<u8>)>,
+    families: Map<String, Value>,
+    fam_start: usize,
+}
+
+fn addr_bytes(a: &Address) -> Vec<u32> {
+    let n = a.len as usize;
+    let mut v: Vec<u32> = a.data[..n.min(16)].iter().map(|b| *b as u32).collect();
+    // a length above 16 cannot be an address; keep it visible as non-byte elements
+    for _ in 16..n {
+        v.push(256);
+    }
+    v
+}
+
+impl Out {
+    fn new(dir: &str, chunk: usize) -> Self {
+        Out {
+            dir: dir.to_string(),
+            chunk,
+            cur: None,
+            files: vec![],
+            cur_path: String::new(),
+            total: 0,
+            calls: 0,
+            ok: 0,
+            reject: 0,
+            panics: 0,
+            distinct: HashSet::new(),
+            families: Map::new(),
+            fam_start: 0,
+        }
+    }
+
+    fn roll(&mut self) {
+        if let Some(t) = self.cur.take() {
+            let n = t.finish();
+            self.files.push(json!({"path": self.cur_path, "events": n}));
+        }
+    }
+
+    fn family(&mut self, name: &str) {
+        self.families.insert(name.to_string(), json!(self.total - self.fam_start));
+        self.fam_start = self.total;
+    }
+
+    fn ev(&mut self, v: Value) {
+        if self.cur.as_ref().map(|t| t.events >= self.chunk).unwrap_or(false) {
+            self.roll();
+        }
+        if self.cur.is_none() {
+            self.cur_path = format!("{}/trace-{:03}.ndjson", self.dir, self.files.len());
+            self.cur = Some(Trace::create(&self.cur_path));
+        }
+        self.cur.as_mut().unwrap().ev(v);
+        self.total += 1;
+    }
+
+    fn call(&mut self, frame: bool, data: &[u8]) {
+        self.calls += 1;
+        if !data.is_empty() {
+            self.distinct.insert((frame as u8, data.to_vec()));
+        }
+        let r = guarded(|| if frame { Frame::parse(data) } else { Packet::parse(data) });
+        let (res, src, dst) = match r {
+            Ok(Ok((s, d))) => {
+                self.ok += 1;
+                ("ok", addr_bytes(&s), addr_bytes(&d))
+            }
+            Ok(Err(_)) => {
+                self.reject += 1;
+                ("reject", vec![], vec![])
+            }
+            Err(_) => {
+                self.panics += 1;
+                ("panic", vec![], vec![])
+            }
+        };
+        let d: Vec<u32> = data.iter().map(|b| *b as u32).collect();
+        self.ev(json!({"op": if frame { "frame" } else { "packet" }, "data": d, "res": res, "src": src, "dst": dst}));
+    }
+
+    fn frame(&mut self, data: &[u8]) {
+        self.call(true, data)
+    }
+    fn packet(&mut self, data: &[u8]) {
+        self.call(false, data)
+    }
+}
+
+fn put16(d: &mut [u8], off: usize, v: u16) {
+    if d.len() > off {
+        d[off] = (v >> 8) as u8;
+    }
+    if d.len() > off + 1 {
+        d[off + 1] = v as u8;
+    }
+}
+
+fn set_version(d: &mut [u8], v: u8) {
+    if !d.is_empty() {
+        d[0] = (v << 4) | (d[0] & 0x0f);
+    }
+}
+
+fn random_bytes(rng: &mut impl Rng, n: usize) -> Vec<u8> {
+    (0..n).map(|_| rng.gen::<u8>()).collect()
+}
+
+const TCIS: [u16; 12] = [0, 1, 0x0fff, 0x1000, 0x2000, 0xf000, 0xffff, 1234, 0xa001, 0x8100, 0x0100, 0xe00f];
+
+/// `dissect replay <in.ndjson> <outdir>`: re-executes the (op, data) of recorded events (replay of a violation).
+fn replay(inp: &str, dir: &str) -> Value {
+    std::fs::create_dir_all(dir).expect("outdir");
+    let mut o = Out::new(dir, usize::MAX);
+    for e in read_ndjson(inp) {
+        let data: Vec<u8> = e["data"].as_array().expect("data").iter().map(|v| v.as_u64().unwrap() as u8).collect();
+        o.call(e["op"].as_str() == Some("frame"), &data);
+    }
+    o.roll();
+    json!({"runs": o.files.len(), "steps": o.calls, "events": o.total, "files": o.files, "panics": o.panics})
+}
+
+pub fn run(args: &[String]) -> Value {
+    if args.get(0).map(|s| s.as_str()) == Some("replay") {
+        return replay(args.get(1).expect("input trace"), args.get(2).expect("outdir"));
+    }
+    let num = |i: usize| args.get(i).and_then(|s| s.parse::<usize>().ok()).expect("dissect <nrand> <et20_stride> <et15_stride> <extra> <chunk> <outdir>");
+    let (nrand, et20_stride, et15_stride, extra, chunk) = (num(0), num(1).max(1), num(2).max(1), num(3) != 0, num(4).max(1000));
+    let dir = args.get(5).expect("outdir").clone();
+    std::fs::create_dir_all(&dir).expect("outdir");
+    let mut o = Out::new(&dir, chunk);
+    let mut r = rng(19);
+
+    // ---- file 0: small structured families -------------------------------------------------------------------------
+    // position-tagged contents: byte at offset i carries (i + k) mod 256
+    for len in 0..=64usize {
+        for k in [0u8, 0x50, 0xa0, 0xf0] {
+            let base: Vec<u8> = (0..len).map(|i| (i as u8).wrapping_add(k)).collect();
+            o.frame(&base);
+            o.packet(&base);
+            let mut d = base.clone();
+            put16(&mut d, 12, 0x8100);
+            o.frame(&d);
+            for v in [4u8, 6] {
+                let mut d = base.clone();
+                set_version(&mut d, v);
+                o.packet(&d);
+            }
+        }
+    }
+    o.family("position_tagged");
+    // all 16 version nibbles x lengths around the limits, position-tagged and random contents
+    for v in 0..16u8 {
+        for len in [0usize, 1, 19, 20, 21, 39, 40, 41, 64] {
+            for c in 0..8 {
+                let mut d: Vec<u8> = if c == 0 { (0..len).map(|i| 0x80 | i as u8).collect() } else { random_bytes(&mut r, len) };
+                set_version(&mut d, v);
+                o.packet(&d);
+                if c == 0 {
+                    o.frame(&d);
+                }
+            }
+        }
+    }
+    o.family("version_nibbles");
+    // nested tags: a second tag (0x8100 / 0x88a8 / 0x9100) behind the first, and service tags in front
+    for outer in [0x8100u16, 0x88a8, 0x9100] {
+        for inner in [0x8100u16, 0x88a8, 0x9100, 0x0800] {
+            for t1 in TCIS {
+                for t2 in [0u16, 0x0fff, 0xb123] {
+                    for len in [20usize, 22, 64] {
+                        let mut d = random_bytes(&mut r, len);
+                        put16(&mut d, 12, outer);
+                        put16(&mut d, 14, t1);
+                        put16(&mut d, 16, inner);
+                        put16(&mut d, 18, t2);
+                        o.frame(&d);
+                    }
+                }
+            }
+        }
+    }
+    o.family("nested_tags");
+    // truncated frames around the ethertype and the tag control field
+    for len in 10..=18usize {
+        for t in TCIS {
+            let mut d = random_bytes(&mut r, len);
+            put16(&mut d, 12, 0x8100);
+            put16(&mut d, 14, t);
+            o.frame(&d);
+            o.packet(&d);
+            // ethertype cut in the middle / almost 0x8100
+            let mut d = random_bytes(&mut r, len);
+            put16(&mut d, 12, 0x8101);
+            o.frame(&d);
+            let mut d = random_bytes(&mut r, len);
+            put16(&mut d, 12, 0x0081);
+            o.frame(&d);
+        }
+    }
+    o.family("truncated_tags");
+    o.roll();
+
+    // ---- sweeps ----------------------------------------------------------------------------------------------------
+    // a stride > 1 (quick tier) keeps every value next to the tag ethertype: high byte 0x81, low byte 0x00, service tags
+    let sweep = |stride: usize| -> Vec<u16> {
+        (0..=0xffffu32)
+            .filter(|et| {
+                stride <= 1
+                    || *et as usize % stride == 0
+                    || et >> 8 == 0x81
+                    || et & 0xff == 0
+                    || [0x88a8, 0x9100, 0x0800, 0x86dd, 0x0081, 0xffff].contains(et)
+            })
+            .map(|et| et as u16)
+            .collect()
+    };
+    let base20 = random_bytes(&mut r, 20);
+    for et in sweep(et20_stride) {
+        let mut d = base20.clone();
+        put16(&mut d, 12, et);
+        o.frame(&d);
+    }
+    o.family("ethertypes_len20");
+    // short frame: the header ends behind the ethertype (0x8100 must be refused there, everything else accepted)
+    let base15 = random_bytes(&mut r, 15);
+    for et in sweep(et15_stride) {
+        let mut d = base15.clone();
+        put16(&mut d, 12, et);
+        o.frame(&d);
+    }
+    o.family("ethertypes_len15");
+    for tci in 0..=0xffffu32 {
+        let mut d = base20.clone();
+        put16(&mut d, 12, 0x8100);
+        put16(&mut d, 14, tci as u16);
+        o.frame(&d);
+    }
+    o.family("tag_controls_len20");
+    if extra {
+        for len in [14usize, 64] {
+            let b = random_bytes(&mut r, len);
+            for et in 0..=0xffffu32 {
+                let mut d = b.clone();
+                put16(&mut d, 12, et as u16);
+                o.frame(&d);
+            }
+        }
+        o.family("ethertypes_len14_len64");
+        for len in [16usize, 18] {
+            let b = random_bytes(&mut r, len);
+            for tci in 0..=0xffffu32 {
+                let mut d = b.clone();
+                put16(&mut d, 12, 0x8100);
+                put16(&mut d, 14, tci as u16);
+                o.frame(&d);
+            }
+        }
+        o.family("tag_controls_len16_len18");
+    }
+
+    // ---- random contents of every length ------------------------------------------------------------------------------
+    for len in 0..=64usize {
+        for i in 0..nrand {
+            let d = random_bytes(&mut r, len);
+            o.frame(&d);
+            o.packet(&d);
+            // the interesting branches are rare in uniform contents: force them on every fourth content
+            if i % 4 == 0 {
+                let mut f = d.clone();
+                put16(&mut f, 12, 0x8100);
+                o.frame(&f);
+                let mut p = d.clone();
+                set_version(&mut p, if i % 8 == 0 { 4 } else { 6 });
+                o.packet(&p);
+            }
+        }
+    }
+    o.family("random_contents");
+    o.roll();
+
+    json!({
+        "runs": o.files.len(), "steps": o.calls, "events": o.total, "files": o.files,
+        "distinct": o.distinct.len(), "ok": o.ok, "reject": o.reject, "panics": o.panics,
+        "families": Value::Object(o.families),
+    })
 }
